@@ -990,7 +990,12 @@ class _Tree(_ArithmeticMixin, _Base):
         return key in (self._findbucket(tree_key) or ())
 
     def has_key(self, key):
-        index = self._search(key)
+        try:
+            tree_key = self._to_key(key)
+        except TypeError:
+            # Can't convert the key, so can't possibly be in the tree
+            return False
+        index = self._search(tree_key)
         if index < 0:
             return False
         return self._data[index].child.has_key(key)
@@ -1406,13 +1411,23 @@ class Tree(_MutableMappingMixin, _Tree):
     __slots__ = ()
 
     def get(self, key, default=None):
-        bucket = self._findbucket(key)
+        try:
+            tree_key = self._to_key(key)
+        except TypeError:
+            # Can't convert, cannot possibly be present.
+            return default
+        bucket = self._findbucket(tree_key)
         if bucket:
             return bucket.get(key, default)
         return default
 
     def __getitem__(self, key):
-        bucket = self._findbucket(key)
+        try:
+            tree_key = self._to_key(key)
+        except TypeError:
+            # Can't convert, so cannot possibly be present.
+            raise KeyError(key)
+        bucket = self._findbucket(tree_key)
         if bucket:
             return bucket[key]
         raise KeyError(key)
